@@ -159,8 +159,20 @@ HOST_STARTS = ['http://example.com/', 'http://1.2.3.4/x', 'http://[::1]/', 'ws:/
 HOST_RELS = ['x', '/y', '?q', '#f', '', '..', '//h2/p', '//1.2.3.4', '//[::2]:9/', './z', '\\w']
 
 
+def numeric_tail_domain(rng):
+    """a domain whose LAST label is a number in some base / case (the 'ends in a number' rule: it must then be an
+    IPv4 address or fail) -- the shape that is eligible for the http(s) fast path because it does not start with a digit"""
+    head = rng.choice(['a.', 'example.', 'foo.bar.', 'x-1.', 'EXAMPLE.', 'a.b.c.d.', 'xn--zca.'])
+    tail = v4_part(rng, rng.choice([0, 1, 10, 31, 171, 255, 256, 4096, 65535, 2 ** 32 - 1]))
+    if rng.random() < 0.3:
+        tail = tail.upper() if rng.random() < 0.5 else tail.lower()
+    return head + tail + rng.choice(['', '', '.'])
+
+
 def some_host(rng):
     r = rng.random()
+    if r < 0.1:
+        return numeric_tail_domain(rng)
     if r < 0.4:
         return v4_spelling(rng)
     if r < 0.55:
